@@ -441,7 +441,14 @@ namespace occa {
         if (printType == vartypePrintType_t::type) {
           pout << *type;
         } else if (printType == vartypePrintType_t::typeDeclaration) {
-          type->printDeclaration(pout);
+          // A typedef that is only referred to ('typedef foo_t bar_t;')
+          // is printed by name, not by its own declaration
+          const typedef_t *typedefType = dynamic_cast<const typedef_t*>(type);
+          if (typedefType && !typedefType->declaredBaseType) {
+            pout << *type;
+          } else {
+            type->printDeclaration(pout);
+          }
         }
       }
 
